@@ -1,9 +1,143 @@
 import Driver.Util
+<<<<<<< HEAD
 open Lean Replicat
 namespace Driver.HStore
+=======
+open Lean Replicat Replicat.Store Replicat.Paging
+namespace Driver
+
+def jstr (s : List Char) : Json := Json.str (String.ofList s)
+
+def getName (j : Json) (k : String) : Except String Replicat.Name := do
+  pure (← getStr j k).toList
+
+def parseOp (j : Json) : Except String Op := do
+  match (← getStr j "op") with
+  | "upload" => pure (.upload (← getName j "name") (← getBytes j "data"))
+  | "upload_stream" => pure (.uploadStream (← getName j "name") (← getBytes j "data") (← getNat j "chunk"))
+  | "delete" => pure (.delete (← getName j "name"))
+  | "exists" => pure (.exists_ (← getName j "name"))
+  | "download" => pure (.download (← getName j "name"))
+  | "download_stream" => pure (.downloadStream (← getName j "name") (← getNat j "chunk") (← getBytes j "sink"))
+  | "list" => pure (.list (← getName j "prefix"))
+  | o => throw s!"unknown store op {o}"
+
+def errStr : Err → String
+  | .notFound => "notFound"
+  | .forbidden => "forbidden"
+  | .osError => "osError"
+  | .http s c => s!"http:{s}:{c}"
+  | .fuel => "fuel"
+  | .unmodelled => "unmodelled"
+
+/-- insertion sort on strings (canonical order of listings: the source is a set) -/
+def sortStrs (l : List String) : List String := (l.toArray.qsort (· < ·)).toList
+
+def retJson : Ret → Json
+  | .unit => Json.mkObj [("unit", Json.bool true)]
+  | .bool b => Json.mkObj [("bool", Json.bool b)]
+  | .bytes d => Json.mkObj [("bytes", Json.str (hex d))]
+  | .names l => Json.mkObj [("names", Json.arr ((sortStrs (l.map String.ofList)).map Json.str).toArray)]
+  | .error e => Json.mkObj [("error", Json.str (errStr e))]
+
+def mapJson (m : List (String × Bytes)) : Json :=
+  let sorted := (m.toArray.qsort (fun a b => a.1 < b.1)).toList
+  Json.arr (sorted.map (fun (n, d) => Json.arr #[Json.str n, Json.str (hex d)])).toArray
+
+/-- run a history, collecting return values and, for listings, the number of list requests -/
+def runWith {σ : Type} (step : σ → Op → σ × Ret) (reqs : σ → Replicat.Name → Nat) : σ → List Op → σ × List Json
+  | s, [] => (s, [])
+  | s, op :: ops =>
+    let r := step s op
+    let j := match op with
+      | .list pfx => (retJson r.2).setObjVal! "requests" (jnat (reqs s pfx))
+      | _ => retJson r.2
+    let rest := runWith step reqs r.1 ops
+    (rest.1, j :: rest.2)
+
+def elemsOf (j : Json) : Except String (List Elem) := do
+  (← j.getArr?).toList.mapM (fun e => do
+    let a ← e.getArr?
+    if h : a.size = 2 then pure ((← a[0].getStr?), (← a[1].getStr?).toList) else throw "element must be [tag, text]")
+
+def optName (j : Json) : Except String (Option Replicat.Name) :=
+  match j with
+  | Json.null => pure none
+  | Json.str s => pure (some s.toList)
+  | _ => throw "expected string or null"
+
+>>>>>>> c13
 /-- requests `store.*` (see DESIGN.md Appendix A) -/
 def handleStore (op : String) (j : Json) : Except String Json := do
   match op with
+  | "store.history" =>
+    let adapter ← getStr j "adapter"
+    let ops ← (← getArr j "ops").toList.mapM parseOp
+    match adapter with
+    | "spec" =>
+      let (s, rs) := runWith MapStore.step (fun _ _ => 0) ([] : MapStore) ops
+      pure (Json.mkObj [("rets", Json.arr rs.toArray), ("state", mapJson (s.map (fun (n, d) => (String.ofList n, d))))])
+    | "s3" =>
+      let ps ← getNat j "ps"
+      let (s, rs) := runWith (S3.step ps) (S3.listRequests ps) ([] : S3) ops
+      pure (Json.mkObj [("rets", Json.arr rs.toArray), ("state", mapJson (s.map (fun (n, d) => (String.ofList n, d))))])
+    | "b2" =>
+      let ps ← getNat j "ps"
+      let (s, rs) := runWith (B2.step ps) (B2.listRequests ps) ([] : B2) ops
+      let live := s.filterMap (fun (n, _) => (B2.visible s n).map (fun d => (String.ofList n, d)))
+      let nver := s.map (fun (n, vs) => Json.arr #[Json.str (String.ofList n), jnat vs.length])
+      pure (Json.mkObj [("rets", Json.arr rs.toArray), ("state", mapJson live), ("versions", Json.arr nver.toArray)])
+    | "local" =>
+      let root ← getName j "root"
+      let (s, rs) := runWith (LocalFS.step root) (fun _ _ => 0) LocalFS.FS.empty ops
+      let files := s.files.map (fun (p, d) => (String.ofList (joinSlash p), d))
+      let dirs := sortStrs (s.dirs.map (fun p => String.ofList (joinSlash p)))
+      pure (Json.mkObj [("rets", Json.arr rs.toArray), ("state", mapJson files), ("dirs", Json.arr (dirs.map Json.str).toArray)])
+    | a => throw s!"unknown adapter {a}"
+  | "store.pathlib" =>
+    let root ← getName j "root"
+    let rel ← getName j "rel"
+    let sp := LocalFS.osSplit rel
+    pure (Json.mkObj [("str", jstr (LocalFS.pparse root).str), ("joined", jstr (LocalFS.pjoin root rel).str),
+                      ("split", Json.arr #[jstr sp.1, jstr sp.2]),
+                      ("parts", Json.arr ((LocalFS.pparse root).parts.map jstr).toArray)])
+  | "store.s3loop" =>
+    -- pages: [[token|null, [[tag, text], …]], …]; unknown token → empty page
+    let pages ← (← getArr j "pages").toList.mapM (fun p => do
+      let a ← p.getArr?
+      if h : a.size = 2 then pure ((← optName a[0]), (← elemsOf a[1])) else throw "page must be [token, elements]")
+    let fuel ← getNat j "fuel"
+    let respond : Option Replicat.Name → List Elem := fun t => ((pages.find? (·.1 = t)).map (·.2)).getD []
+    match s3List respond fuel with
+    | some l => pure (Json.mkObj [("names", Json.arr (l.map jstr).toArray),
+                                  ("requests", jnat (s3Requests respond fuel ⟨Gen.s3LoopStartsTruncated, none⟩))])
+    | none => pure (Json.mkObj [("fuel", Json.bool true)])
+  | "store.b2loop" =>
+    let pages ← (← getArr j "pages").toList.mapM (fun p => do
+      let a ← p.getArr?
+      if h : a.size = 3 then
+        pure ((← optName a[0]), (⟨(← (← a[1].getArr?).toList.mapM (fun x => do pure (← x.getStr?).toList)), (← optName a[2])⟩ : B2Page))
+      else throw "page must be [start, files, next]")
+    let fuel ← getNat j "fuel"
+    let respond : Option Replicat.Name → B2Page := fun t => ((pages.find? (·.1 = t)).map (·.2)).getD ⟨[], none⟩
+    match b2List respond fuel with
+    | some l => pure (Json.mkObj [("names", Json.arr (l.map jstr).toArray), ("requests", jnat (b2Requests respond fuel none))])
+    | none => pure (Json.mkObj [("fuel", Json.bool true)])
+  | "store.upload_states" =>
+    -- the file table after each of the file-system steps of one upload (k = 0 … 4), after a prior history
+    let root ← getName j "root"
+    let ops ← (← getArr j "ops").toList.mapM parseOp
+    let (fs, _) := runWith (LocalFS.step root) (fun _ _ => 0) LocalFS.FS.empty ops
+    let n ← getName j "name"
+    let d ← getBytes j "data"
+    let rnd ← getName j "rnd"
+    let states := (List.range 5).map (fun k =>
+      mapJson ((LocalFS.uploadState fs (splitSlash n) rnd d k).files.map (fun (p, x) => (String.ofList (joinSlash p), x))))
+    pure (Json.mkObj [("states", Json.arr states.toArray)])
+  | "store.addr" =>
+    let n ← getName j "name"
+    pure (Json.mkObj [("s3dot", Json.bool (hasDotSegment n)),
+                      ("b2", match b2Addr n with | some a => jstr a | none => Json.null)])
   | _ => throw s!"unknown op {op}"
 
 end Driver.HStore
